@@ -7,11 +7,29 @@
 (b) formerly carved-out forms, now ordinary members of the clause (repaired in the fix round):
     list literals `[a,b]` / `[a]` / `[]`, repeated keywords (SyntaxError as in Python), blanks
     after keyword values; and junk text (error kinds / accepted junk, tie only).
-(c) str direction over the C09 option lattice: str(q) vs model print (string equality),
-    get_quantizer(str(q)) vs the model's verdict and rebuilt fields, and the clause oracle:
-    no exception, identical outputs / scale / gradients on probe tensors.
+(r) routes and histories (second strengthening round, seeds C10-5 / C10-6): every text of (a) and
+    (b) also through the real `get_quantizer(text)` (clause route_get_quantizer); numpy-style lists;
+    histories in one process: mutation of what GetParams returned, safe_eval with overrides on the
+    same argument text under another name (clause override_merge), then the same text again through
+    both routes and under a third name, and every text a second time at the end of the run
+    (clause parse_eq_python with the history step in the key).
+(c) str direction over the C09 option lattice EXTENDED per class with the case splits of the
+    printing code (strengthening round, seed C10-3): for every option the constructor defaults
+    of the OTHER classes with an option of that name, every constant the model's `__str__` tables
+    and the live source of quantizers.py compare an option of that name with, and the
+    falsy-but-legal values (0, 0.0, False), each under every context of the class.
+    str(q) vs model print (string equality), get_quantizer(str(q)) vs the model's verdict and
+    rebuilt fields, and the clause oracle "denotes the same function":
+      str_same_options  — the COMPLETE option set of the rebuilt quantizer (every constructor
+                          argument read back from the object, and every get_config() entry) is
+                          Python-`==` the original's; an omitted option that silently falls back
+                          to another value is a violation by itself;
+      str_same_output / str_same_gradient — no exception, identical outputs / scale / gradients
+                          on probe tensors, in the training phase too, there also with
+                          tf.random.uniform patched to fixed draws (a grid of levels).
 """
 import ast
+import inspect
 import keyword
 import re
 
@@ -164,6 +182,45 @@ def impl_read(text, name):
   return {"args": [], "kwargs": [], "called": False}
 
 
+REC_NAME = "qkv_route_recorder"
+
+
+def _as_call(r):
+  if isinstance(r, tuple) and r and r[0] == "REC":
+    return {"args": [L.enc(x) for x in r[1]], "kwargs": [[k, L.enc(v)] for k, v in r[2].items()],
+            "called": True}
+  return {"args": [], "kwargs": [], "called": False}
+
+
+def route_read(Q, text, name):
+  """the same text through the OTHER public route: the real `get_quantizer(text)` of
+  qkeras.quantizers (what layer arguments, QActivation(text) and the conversion dictionaries
+  call), with a recorder bound to a fresh name in the module's globals in place of `name`"""
+  rec = _Rec()
+  setattr(Q, REC_NAME, rec)
+  try:
+    return _as_call(Q.get_quantizer(REC_NAME + text[len(name):]))
+  except BaseException as e:  # pylint: disable=broad-except
+    return {"err": L.err_tag(e)}
+  finally:
+    delattr(Q, REC_NAME)
+
+
+def numpy_list_text(rng, lit):
+  """a list literal in the form `str(numpy.ndarray)` prints: items separated by blanks, no
+  commas, optional padding; an integral float may lose its fraction digits ("2.")"""
+  items = []
+  for e in lit["ns"]:
+    t = lit_text(e)
+    if e["t"] == "float" and e["ex"] is None and set(e["fp"]) == {"0"} and rng.integers(2) == 0:
+      t = t[:t.index(".") + 1]
+    items.append(t)
+  out = "[" + " " * int(rng.integers(0, 2))
+  for i, t in enumerate(items):
+    out += t + (" " * int(rng.integers(1, 4)) if i < len(items) - 1 else "")
+  return out + " " * int(rng.integers(0, 3)) + "]"
+
+
 def python_read(text, name):
   """Python's own reading: compile() for the syntax verdict, ast.literal_eval per argument"""
   try:
@@ -204,6 +261,390 @@ def same_reading(a, b):
   return a["args"] == b["args"] and sorted(a["kwargs"]) == sorted(b["kwargs"])
 
 
+# --------------------------------------------------------------------------- option lattice (C10)
+
+NOT_SWEPT = {"var_name", "use_variables", "post_training_scale"}   # not literals / no effect
+NO_ZERO = {"bits", "alpha", "elements_per_scale"}   # 0 is not a legal value of these options
+
+
+def harvest_source_constants(module):
+  """every literal the live source of `module` compares an attribute with (`self.x != 6.0`,
+  `quantizer.temperature != 6.0`, `0 == self.y`, ...): {attribute name: [values]}"""
+  out = {}
+  try:
+    tree = ast.parse(inspect.getsource(module))
+  except (OSError, TypeError, SyntaxError):
+    return out
+
+  def const(n):
+    if isinstance(n, ast.Constant) and isinstance(n.value, (int, float, str, bool, type(None))):
+      return True, n.value
+    if isinstance(n, ast.UnaryOp) and isinstance(n.op, ast.USub) and isinstance(n.operand, ast.Constant) \
+        and isinstance(n.operand.value, (int, float)) and not isinstance(n.operand.value, bool):
+      return True, -n.operand.value
+    return False, None
+
+  for node in ast.walk(tree):
+    if isinstance(node, ast.Compare) and len(node.comparators) == 1:
+      l, r = node.left, node.comparators[0]
+      for a, b in ((l, r), (r, l)):
+        if isinstance(a, ast.Attribute):
+          ok, v = const(b)
+          if ok:
+            out.setdefault(a.attr, [])
+            if not any(type(v) is type(w) and v == w for w in out[a.attr]):
+              out[a.attr].append(v)
+  return out
+
+
+def live_defaults(reg):
+  """constructor defaults of the live classes: {class: {parameter: default}}"""
+  out = {}
+  for n, c in reg.items():
+    ps = list(inspect.signature(c.__init__).parameters.values())[1:]
+    out[n] = {p.name: p.default for p in ps if p.default is not inspect.Parameter.empty}
+  return out
+
+
+def _same(v, w):
+  return type(v) is type(w) and v == w
+
+
+def extra_option_values(name, defaults, harvested, anchors):
+  """per option of class `name`: the values at which printing code SHARED with other classes (or
+  written with their constants) would split — defaults of the other classes for an option of
+  that name, constants of the model's statement tables and of the live source for that name,
+  and the falsy-but-legal values.  Returns {option: [(value, origin)]}."""
+  own = defaults[name]
+  known = L.LATTICE[name]["options"]
+  out = {}
+
+  def add(o, v, origin):
+    if isinstance(v, float) and v != v:
+      return
+    if _same(v, own.get(o)):
+      return
+    lst = out.setdefault(o, [])
+    if any(_same(v, w) for w, _ in lst) or any(_same(v, w) for w in known.get(o, []) if not isinstance(w, (list, np.ndarray))):
+      return
+    lst.append((v, origin))
+
+  for o in own:
+    if o in NOT_SWEPT:
+      continue
+    # (1) defaults of the other classes
+    for other, d in defaults.items():
+      if other != name and o in d and not isinstance(d[o], (list, np.ndarray)):
+        add(o, d[o], "default-of-" + other)
+    # (2) constants of the model's statement tables (any class) for this option name
+    for v in anchors.get(o, []):
+      add(o, v, "model-table-constant")
+    # (3) constants the live source compares an attribute of that name with
+    for v in harvested.get(o, []):
+      if isinstance(v, str) and not isinstance(own[o], str) and not any(isinstance(w, str) for w in known.get(o, [])):
+        continue
+      add(o, v, "source-constant")   # kept only if the constructor and the call accept it
+    # (4) falsy-but-legal
+    if o in NO_ZERO or o == "qnoise_factor":
+      continue
+    kinds = [own[o]] + [w for w in known.get(o, []) if not isinstance(w, (list, np.ndarray))]
+    if any(isinstance(w, bool) for w in kinds):
+      add(o, False, "falsy")
+      add(o, True, "truthy")
+    elif any(isinstance(w, float) for w in kinds):
+      add(o, 0.0, "falsy")
+    elif any(isinstance(w, int) for w in kinds):
+      add(o, 0, "falsy")
+  return out
+
+
+def legal(cls, kw, x):
+  """the constructor accepts the options and the quantizer maps the probe to finite numbers"""
+  try:
+    q = cls(**kw)
+    y = q(x)
+    y = np.asarray(y.numpy() if hasattr(y, "numpy") else y, np.float32)
+    return bool(np.all(np.isfinite(y)))
+  except Exception:  # pylint: disable=broad-except
+    return False
+
+
+def c10_configs(name, tier, rng, cls, extras, x_legal):
+  """the C09 lattice of the class (unchanged, same order), then every extra option value under
+  every context of the class, then the extra values of two options together"""
+  out = list(L.configs(name, tier, rng))
+  seen = {L._key(kw) for _, kw in out}   # pylint: disable=protected-access
+  lat = L.LATTICE[name]
+
+  def add(kw, kind):
+    k = L._key(kw)   # pylint: disable=protected-access
+    if k in seen:
+      return
+    seen.add(k)
+    if legal(cls, kw, x_legal):
+      out.append((kind, dict(kw)))
+
+  singles = []
+  for o, vals in extras.items():
+    for v, origin in vals:
+      singles.append((o, v))
+      for ctx in lat["contexts"]:
+        if o in ctx:
+          continue
+        kw = dict(ctx)
+        kw[o] = v
+        add(kw, "cross")
+  # two cross values together (printing code that shares ONE helper for several options)
+  for i, (o1, v1) in enumerate(singles):
+    for o2, v2 in singles[i + 1:]:
+      if o1 != o2:
+        for ctx in lat["contexts"][:2]:
+          if o1 in ctx or o2 in ctx:
+            continue
+          kw = dict(ctx)
+          kw[o1] = v1
+          kw[o2] = v2
+          add(kw, "cross2")
+  return out
+
+
+# --------------------------------------------------------------------------- array-valued options
+
+ARRAY_FORMS = ("list", "tuple", "ndarray64", "ndarray32", "tf.constant", "tf.Variable")
+
+
+def _form(v, form, tf):
+  if form == "list":
+    return list(v)
+  if form == "tuple":
+    return tuple(v)
+  ints = all(isinstance(e, int) for e in v)
+  if form == "ndarray64":
+    return np.array(v, dtype=np.int64 if ints else np.float64)
+  if form == "ndarray32":
+    return np.array(v, dtype=np.int32 if ints else np.float32)
+  if form == "tf.constant":
+    return tf.constant(v, dtype=tf.int32 if ints else tf.float32)
+  return tf.Variable(v, dtype=tf.int32 if ints else tf.float32, trainable=False)
+
+
+def array_configs(name, tf):
+  """per-channel (array-valued) options, in every form the signature allows: the scale `alpha` of
+  quantized_linear (printed with str(np.array(alpha))), the integer bits of quantized_bits /
+  quantized_relu / quantized_hswish as ndarray or tf.Variable (what QAdaptiveActivation(per_channel)
+  stores; printed with str(ndarray)).  Three channels; values whose numpy text is positional."""
+  out = []
+  if name == "quantized_linear":
+    for v in ([0.5, 0.25, 2.0], [1.0, 2.0, 4.0], [1, 2, 4], [1.5, 0.125, 16.0]):
+      for form in ARRAY_FORMS:
+        for ctx in ({"bits": 4}, {"bits": 6, "integer": 1, "keep_negative": False}):
+          kw = dict(ctx)
+          kw["alpha"] = (v, form)
+          out.append(kw)
+  elif name in ("quantized_bits", "quantized_relu", "quantized_hswish"):
+    ctxs = {"quantized_bits": ({"bits": 8, "alpha": 1.0, "symmetric": 1}, {"bits": 6, "keep_negative": False}),
+            "quantized_relu": ({"bits": 8}, {"bits": 6, "negative_slope": 0.25}),
+            "quantized_hswish": ({"bits": 8},)}[name]
+    for v in ([1, 2, 0], [2, 1, 3], [10, 2, 0], [3, 3, 3]):
+      for form in ("ndarray64", "ndarray32", "tf.Variable"):
+        for ctx in ctxs:
+          kw = dict(ctx)
+          kw["integer"] = (v, form)
+          out.append(kw)
+  res = []
+  for kw in out:
+    forms = {k: v[1] for k, v in kw.items() if isinstance(v, tuple) and len(v) == 2 and isinstance(v[1], str)}
+    real = {k: (_form(v[0], v[1], tf) if k in forms else v) for k, v in kw.items()}
+    plain = {k: (list(v[0]) if k in forms else v) for k, v in kw.items()}
+    res.append((real, plain, forms))
+  return res
+
+
+SCALAR_FORMS = ("np.float32", "np.float64", "np.int64", "np.int32", "0-d ndarray")
+
+
+def scalar_form_configs(name, defaults, rng_index):
+  """every numeric option of the class's lattice once as a numpy scalar / 0-d array instead of a
+  Python number (same value => same text, same rebuilt options); the form rotates with the
+  option so that one quick run sees every form.  Eager tensors are NOT generated: str(tf.constant(4))
+  is 'tf.Tensor(4, shape=(), dtype=int32)' for every option of every class (notes/C10.md)."""
+  out = []
+  lat = L.LATTICE[name]
+  ctx = dict(lat["contexts"][-1])
+  i = rng_index
+  for o, vals in lat["options"].items():
+    if o in NOT_SWEPT or o in ctx:
+      continue
+    for v in vals[:1]:
+      if isinstance(v, bool) or not isinstance(v, (int, float)):
+        continue
+      if isinstance(v, float) and float(np.float32(v)) != v:
+        continue
+      for j in range(2):
+        form = SCALAR_FORMS[(i + j * 2) % len(SCALAR_FORMS)]
+        if isinstance(v, float) and form in ("np.int64", "np.int32"):
+          form = "np.float32"
+        if isinstance(v, int) and form in ("np.float32", "np.float64"):
+          form = "np.int64"
+        fv = {"np.float32": np.float32, "np.float64": np.float64, "np.int64": np.int64,
+              "np.int32": np.int32, "0-d ndarray": np.array}[form](v)
+        real = dict(ctx)
+        real[o] = fv
+        plain = dict(ctx)
+        plain[o] = v
+        out.append((real, plain, {o: form}))
+      i += 1
+  return out
+
+
+def list_configs(name):
+  """list-valued axis options of the classes whose __str__ prints them with str(x) (binary, which
+  prints item by item, has them in the C09 lattice already)"""
+  if name == "quantized_bits":
+    return [{"bits": 4, "alpha": "auto", "scale_axis": [0, 1]},
+            {"bits": 4, "alpha": "auto_po2", "scale_axis": [0, 1], "elements_per_scale": [2, 3]},
+            {"bits": 4, "alpha": "auto_po2", "scale_axis": 1, "elements_per_scale": [2]},
+            {"alpha": "auto", "scale_axis": [1]}]
+  if name == "quantized_linear":
+    return [{"bits": 4, "alpha": "auto", "scale_axis": [0, 1]}, {"alpha": "auto_po2", "scale_axis": [1]}]
+  if name == "quantized_hswish":
+    return [{"bits": 4, "alpha": "auto", "scale_axis": [0, 1]}]
+  return []
+
+
+def c10_attrs(q, names):
+  """qlattice.attrs, with tracked sequences (tf.Module wraps list attributes in ListWrapper) read as lists"""
+  import collections.abc
+  out = {}
+  for n in names:
+    try:
+      v = getattr(q, n)
+      if isinstance(v, collections.abc.Sequence) and not isinstance(v, (str, bytes, list, tuple)):
+        v = list(v)
+      out[n] = L.enc(v)
+    except Exception as e:  # pylint: disable=broad-except
+      out[n] = {"s": "<unreadable:%s>" % L.err_tag(e)}
+  return out
+
+
+def ws_variants(s):
+  """the same call with blanks where a call expression may have them: after the commas (inside
+  number lists too), around `=`, after `(` and before `)`"""
+  head, _, tail = s.partition("(")
+  body = tail[:-1] if tail.endswith(")") else tail
+  return [("blank_after_comma", head + "(" + body.replace(",", ", ") + ")"),
+          ("blank_around_eq_and_parens", head + "( " + body.replace("=", " = ") + " )")]
+
+
+# --------------------------------------------------------------------------- fixed random draws
+
+PHI = 0.6180339887498949
+
+
+class FixedDraws:
+  """stand-in for tf.random.uniform (cf. harness/qkv/props/c08.py): element k of the n-th draw of
+  a call is frac(level + k*phi + 0.37*n), a multiple of 2^-23 in [0,1) — the same tensor for the
+  original and the rebuilt quantizer, so that equal options give bit-identical samples and a
+  changed sampling probability moves at least the elements whose draw lies in between."""
+
+  def __init__(self, tf):
+    self.tf = tf
+    self.level = 0.5
+    self.calls = 0
+    self.mods = []
+
+  def install(self, mods):
+    for m in mods:
+      self.mods.append((m, m.uniform))
+      m.uniform = self.fake
+    return self
+
+  def uninstall(self):
+    for m, orig in self.mods:
+      m.uniform = orig
+    self.mods = []
+
+  def fake(self, shape, minval=0, maxval=None, dtype=None, seed=None, name=None):  # pylint: disable=unused-argument
+    tf = self.tf
+    shp = [int(d) for d in np.asarray(shape).reshape(-1)]
+    n = int(np.prod(shp)) if shp else 1
+    u = (self.level + np.arange(n) * PHI + 0.37 * self.calls) % 1.0
+    u = np.minimum(np.floor(u * 2.0 ** 23) / 2.0 ** 23, 1.0 - 2.0 ** -23).astype(np.float32)
+    self.calls += 1
+    u = tf.reshape(tf.constant(u), shp)
+    if maxval is None and isinstance(minval, (int, float)) and minval == 0:
+      return u
+    if maxval is None:
+      maxval = 1.0
+    return u * (maxval - minval) + minval
+
+
+def observe_training(q, xs, draws, levels):
+  """training-phase outputs and scale under the fixed draws, one observation per level"""
+  import tensorflow as tf
+  import tensorflow.keras.backend as K
+  obs = {}
+  K.set_learning_phase(1)
+  try:
+    for i, x in enumerate(xs):
+      for lv in levels:
+        draws.level = lv
+        draws.calls = 0
+        key = "%d_%g" % (i, lv)
+        try:
+          y = q(tf.constant(x))
+          obs["y1f" + key] = np.asarray(y.numpy() if hasattr(y, "numpy") else y, np.float32).tobytes()
+          sc = getattr(q, "scale", None)
+          if sc is not None:
+            sc = np.asarray(K.eval(sc) if hasattr(sc, "numpy") or tf.is_tensor(sc) else sc, np.float32)
+            obs["s1f" + key] = (sc.shape, sc.tobytes())
+          else:
+            obs["s1f" + key] = None
+        except Exception as e:  # pylint: disable=broad-except
+          obs["y1f" + key] = ("raises", L.err_tag(e))
+  finally:
+    K.set_learning_phase(0)
+  return obs
+
+
+# --------------------------------------------------------------------------- complete option set
+
+def _py(v):
+  """decoded protocol value; numbers compare exactly, across bool / int / float as Python does"""
+  try:
+    return L.dec(v)
+  except Exception:  # pylint: disable=broad-except
+    return v
+
+
+def _enc_any(v):
+  try:
+    return L.enc(v)
+  except Exception:  # pylint: disable=broad-except
+    return {"s": "<%s>" % type(v).__name__}
+
+
+def options_diff(q, q2, a0, a2, pnames):
+  """fields of the complete option set in which the rebuilt quantizer is not Python-`==` the
+  original: every constructor argument read back from the objects, every get_config() entry"""
+  bad = {}
+  for n in pnames:
+    if not _py(a0[n]) == _py(a2[n]):
+      bad[n] = {"original": a0[n], "rebuilt": a2[n], "read_from": "attribute"}
+  try:
+    c1, c2 = q.get_config(), q2.get_config()
+  except Exception:  # pylint: disable=broad-except
+    return bad
+  for k in sorted(set(c1) | set(c2)):
+    if k in bad:
+      continue
+    e1 = _enc_any(c1[k]) if k in c1 else {"s": "<absent>"}
+    e2 = _enc_any(c2[k]) if k in c2 else {"s": "<absent>"}
+    if not _py(e1) == _py(e2):
+      bad[k] = {"original": e1, "rebuilt": e2, "read_from": "get_config"}
+  return bad
+
+
 # --------------------------------------------------------------------------- the check
 
 def run(run: core.Run, tier: str):
@@ -216,15 +657,37 @@ def run(run: core.Run, tier: str):
       "keyword, 1 in 6 shuffled; None/True/False, signed ints up to 12 digits, signed floats "
       "with optional exponent, quoted strings over a 90-symbol alphabet incl. 'True'/'None'/'1.5' "
       "as string contents, lists of 0-4 numbers) x 4 whitespace layouts (the 4th with blanks after "
-      "keyword values); fixed list / repeated-keyword forms and junk text as separate streams; "
-      "str direction: the C09 option lattice (qkv.qlattice). non-trivial = distinct text / "
-      "distinct (class, keyword set)")
+      "keyword values); numpy-style lists (blanks, no commas, padding, '2.') with Python's reading of the "
+      "comma form as reference; fixed list / repeated-keyword forms and junk text as separate streams; "
+      "EVERY text through both public routes (safe_eval with a recorder, the real get_quantizer with the "
+      "recorder bound in the module globals); histories in one process (120 texts: caller mutates the "
+      "GetParams result, safe_eval with *params / **kwparams on the same argument text under another "
+      "name, then the text again through both routes and under a third name; every text read a second "
+      "time at the end); "
+      "str direction: the C09 option lattice (qkv.qlattice) plus, per class and option, under every "
+      "context of the class: the constructor defaults of the other classes for an option of that name "
+      "(temperature 6.0 / 8.0, relu_upper_bound None / 6, negative_slope 0 / 0.0, symmetric 0 / 1 / False), "
+      "the constants of the model's __str__ tables and the literals the live source of quantizers.py "
+      "compares an attribute of that name with, the falsy-but-legal values 0 / 0.0 / False, and pairs of "
+      "those values (kept when the constructor accepts them and the probe maps to finite numbers); "
+      "array-valued options in every argument form (alpha of quantized_linear as list / tuple / float64 / "
+      "float32 ndarray / tf.constant / tf.Variable; integer bits of quantized_bits / quantized_relu / "
+      "quantized_hswish as int64 / int32 ndarray / tf.Variable) on three-channel probes; list-valued axes "
+      "of quantized_bits / quantized_linear / quantized_hswish; every printed text also with blanks after "
+      "commas / around '=' / inside the parentheses, through QActivation(text), and again after a "
+      "safe_eval call with a keyword override on the same text. "
+      "non-trivial = distinct text / distinct (class, keyword set)")
   run.assumptions.append(
       "pyparsing's matching of the GetParams grammar is modelled by comma segments up to the "
       "first ')' outside a bracketed number list (tied on generated and malformed text); "
       "int()/float() on ASCII decimal text "
       "without '_' / inf / nan; CPython rounds a decimal literal to binary64 identically in "
       "float(s) and in the compiler (device 1: the model carries the exact decimal)")
+  run.assumptions.append(
+      "str(numpy.ndarray) is modelled for 1-d arrays of integers and of floats in positional notation "
+      "with <= 8 fraction digits (no exponent form, no line wrap); the array-valued option values stay "
+      "inside that domain; a list value of 'integer' / 'alpha' stands for an ndarray / tensor (the model "
+      "does not distinguish a Python list from an ndarray)")
   run.assumptions.append(
       "repr(float) is modelled for terminating decimals with <= 15 significant digits in "
       "[1e-4, 1e16); the option lattice stays inside that domain")
@@ -257,6 +720,26 @@ def run(run: core.Run, tier: str):
       cases.append(("list_literal", name, None, "%s(%s=[])" % (name, k), 0))
       cases.append(("repeated_keyword", name, None,
                     "%s(%s=%s,%s=%s)" % (name, k, lit_text(a), k, lit_text(b)), 0))
+  # lists in the form __str__ prints for array-valued options (numpy: blanks, no commas); not
+  # Python syntax — the reference reading is Python's reading of the comma form of the same tree
+  np_ref = {}
+  for name in names:
+    pool = [p[0] for p in model_cls[name]["params"]]
+    for _ in range(6 if tier == "quick" else 40):
+      args = [a for a in gen_args(rng, pool, allow_bad_order=False)][:3]
+      args.insert(int(rng.integers(0, 1 + sum(1 for a in args if a["k"] is None))),
+                  {"k": None, "lit": gen_lit(rng, "list")})
+      if rng.integers(2) == 0:
+        k = gen_ident(rng, [q for q in pool if q not in {a["k"] for a in args}])
+        if k not in {a["k"] for a in args}:
+          args.append({"k": k, "lit": gen_lit(rng, "list")})
+      parts = []
+      for a in args:
+        t = numpy_list_text(rng, a["lit"]) if a["lit"]["t"] == "list" else lit_text(a["lit"])
+        parts.append(t if a["k"] is None else a["k"] + "=" + t)
+      text = name + "(" + ",".join(parts) + ")"
+      np_ref[text] = render(name, args, 0, rng)
+      cases.append(("numpy_list", name, None, text, 0))
   lines, meta = [], []
   for form, name, args, text, ws in cases:
     if args is not None and ws == 0:
@@ -265,12 +748,24 @@ def run(run: core.Run, tier: str):
       lines.append({"op": "parse", "s": text})
     meta.append((form, name, args, text, ws))
   outs = core.run_driver("C10", lines)
+  first_reading = {}
   for (form, name, args, text, ws), o in zip(meta, outs):
     run.case(text, nontrivial=True,
              sample={"text": text} if len(run.samples) < 4 and ws == 2 else None)
     run.compared += 1
     impl = norm_call(impl_read(text, name))
-    py = norm_call(python_read(text, name))
+    first_reading[text] = (name, impl)
+    # the reference: Python's own reading (of the comma form of the tree for numpy-style lists)
+    py = norm_call(python_read(np_ref.get(text, text), name))
+    # the other public route: get_quantizer(text) must read the text exactly as safe_eval does
+    impl_r = norm_call(route_read(Q, text, name))
+    run.compared += 1
+    if impl_r != impl:
+      run.count("route_differs_" + form)
+      run.violate("route_get_quantizer", {"form": form},
+                  {"text": text, "safe_eval": impl, "get_quantizer": impl_r, "python": py,
+                   "replay": "qkeras.quantizers.get_quantizer(%r) vs qkeras.safe_eval.safe_eval(%r, table)"
+                             % (text, text)}, mirrored=False)
     if "parse" in o:
       if o["text"] != text:
         run.disagree("render", {"args": args}, text, o["text"])
@@ -352,28 +847,147 @@ def run(run: core.Run, tier: str):
     run.count("junk_" + ("err_" + impl["err"] if "err" in impl else "accepted"))
     if impl != model:
       run.disagree("parse.junk", {"text": s}, impl, model)
+    impl_r = norm_call(route_read(Q, s, name))
+    if impl_r != impl:
+      run.disagree("parse.junk.route_get_quantizer", {"text": s}, impl_r, impl)
+
+  # ------------------------------------------------------------------ (h) histories in one process
+  # The reading of a text must not depend on what the process parsed before: the same argument
+  # text again, under another name, after a call WITH keyword / positional overrides
+  # (safe_eval(text, table, *params, **kwparams), the form of tests/safe_eval_test.py), after the
+  # caller mutated what GetParams returned.  Reference: Python's reading of the text.
+  from qkeras.safe_eval import safe_eval as real_safe_eval, GetParams as real_get_params
+  hist = [(form, name, text) for (form, name, args, text, ws) in meta
+          if form in ("grammar", "numpy_list", "list_literal") and ws in (0, 1)
+          and "err" not in first_reading[text][1] and first_reading[text][1]["called"]]
+  n_hist = 120 if tier == "quick" else 1200
+  pick = sorted(rng.choice(len(hist), size=min(n_hist, len(hist)), replace=False).tolist()) if hist else []
+  ov_pool = [False, 7, "ov", None, 2.5, [1, 2]]
+  hlines, hmeta = [], []
+  for i in pick:
+    form, name, text = hist[i]
+    argtext = text[len(name):]
+    ref = norm_call(python_read(np_ref.get(text, text), name))
+    if "err" in ref:
+      continue
+    run.case(("history", text), nontrivial=True)
+    keys = [k for k, _ in ref["kwargs"]]
+    ov = {}
+    if keys and rng.integers(2) == 0:
+      ov[keys[int(rng.integers(len(keys)))]] = ov_pool[int(rng.integers(len(ov_pool)))]
+    ov["qkv_override"] = ov_pool[int(rng.integers(len(ov_pool)))]
+    params = [3] if rng.integers(3) == 0 else []
+    steps = []
+    # 1. the caller mutates the objects GetParams handed out
+    try:
+      a, k = real_get_params(argtext)
+      a.append("qkv_mutated")
+      k["qkv_mutated"] = 1
+      for v in list(a) + list(k.values()):
+        if isinstance(v, list):
+          v.append(99)
+      steps.append(("after_mutating_GetParams_result", norm_call(impl_read(text, name))))
+    except BaseException as e:  # pylint: disable=broad-except
+      steps.append(("after_mutating_GetParams_result", {"err": L.err_tag(e)}))
+    # 2. a call with overrides on the same argument text under ANOTHER name
+    rec = _Rec()
+    try:
+      got = norm_call(_as_call(real_safe_eval("qkv_other" + argtext, {"qkv_other": rec}, *params, **ov)))
+    except BaseException as e:  # pylint: disable=broad-except
+      got = {"err": L.err_tag(e)}
+    merged = dict((k2, v2) for k2, v2 in ref["kwargs"])
+    for k2, v2 in ov.items():
+      merged[k2] = L.enc(v2)
+    want = {"args": ref["args"] + [L.enc(x) for x in params],
+            "kwargs": [[k2, v2] for k2, v2 in merged.items()], "called": True}
+    run.compared += 1
+    hlines.append({"op": "override", "s": "qkv_other" + argtext, "params": [L.enc(x) for x in params],
+                   "kw": L.enc_env(ov)})
+    hmeta.append((text, got))
+    if not same_reading(got, want):
+      run.violate("override_merge", {"form": form},
+                  {"text": "qkv_other" + argtext, "params": params, "overrides": L.enc_env(ov),
+                   "safe_eval": got, "expected": want}, mirrored=False)
+    # 3. the same text again, through both routes, and the same argument text under a third name
+    steps.append(("after_override_call", norm_call(impl_read(text, name))))
+    steps.append(("after_override_call.get_quantizer", norm_call(route_read(Q, text, name))))
+    steps.append(("after_override_call.other_name", norm_call(impl_read("qkv_third" + argtext, "qkv_third"))))
+    for step, got2 in steps:
+      run.compared += 1
+      run.count("history_" + step)
+      if not same_reading(got2, ref) or got2 != first_reading[text][1]:
+        run.violate("parse_eq_python", {"form": form, "history": step},
+                    {"text": text, "reading": got2, "python": ref, "first_reading": first_reading[text][1],
+                     "history": "GetParams(%r) result mutated; safe_eval(%r, table, *%r, **%r); then this read"
+                                % (argtext, "qkv_other" + argtext, params, ov)}, mirrored=False)
+  for (text, got), o in zip(hmeta, core.run_driver("C10", hlines)):
+    if norm_call(o) != got and not ("err" in got and norm_call(o).get("err") == got["err"]):
+      if not same_reading(norm_call(o), got):
+        run.disagree("override", {"text": text}, got, norm_call(o))
+  # second pass: every text of the grammar stream read once more at the end of the history
+  for text, (name, first) in first_reading.items():
+    again = norm_call(impl_read(text, name))
+    run.compared += 1
+    if again != first:
+      run.count("second_pass_differs")
+      run.violate("parse_eq_python", {"form": "second_pass", "history": "end_of_process"},
+                  {"text": text, "first_reading": first, "second_reading": again}, mirrored=False)
 
   # ------------------------------------------------------------------ (c) str direction
+  import tensorflow as tf
   xs_all = L.probes(rng)
-  xs = xs_all if tier != "quick" else [xs_all[0], xs_all[2]]
+  xs_main = xs_all if tier != "quick" else [xs_all[0], xs_all[2]]
+  xs_arr = [np.ascontiguousarray(xs_all[0][:, :3]), np.ascontiguousarray(xs_all[2][..., :3])]
+  # the case splits of the printing code: the model's statement tables, the live signatures, the
+  # literals the live source compares options with
+  anchors_raw = core.run_driver("C10", [{"op": "anchors"}])[0]["classes"]
+  anchors = {}
+  for c in anchors_raw:
+    for r in c["rows"]:
+      if r["cond"] == "ne":
+        v = L.dec(r["const"])
+        if not any(_same(v, w) for w in anchors.setdefault(r["name"], [])):
+          anchors[r["name"]].append(v)
+      if not r["anchored"]:
+        run.disagree("model.anchored", {"class": c["cls"], "row": r}, "n/a", "statement not anchored at the class default")
+  unprinted = {c["cls"]: c["unprinted"] for c in anchors_raw}
+  defaults = live_defaults(reg)
+  harvested = harvest_source_constants(Q)
+  run.extra["source_constants_harvested"] = {k: [repr(v) for v in vs] for k, vs in sorted(harvested.items())
+                                             if any(k in d for d in defaults.values())}
+  draws = FixedDraws(tf)
+  rmods = [Q.tf.random] + ([tf.random] if tf.random is not Q.tf.random else [])
+  levels_full = [(k + 0.5) / 8.0 for k in range(8)]
   slines, srecs = [], []
   for name in names:
     cls = reg.get(name)
     if cls is None:
       continue
     pnames = [p[0] for p in model_cls[name]["params"]]
-    for kind, kw in L.configs(name, tier, rng):
+    extras = extra_option_values(name, defaults, harvested, anchors)
+    run.extra.setdefault("cross_values", {})[name] = {o: ["%r (%s)" % (v, why) for v, why in vs]
+                                                      for o, vs in sorted(extras.items())}
+    todo = [(kind, kw, kw, None) for kind, kw in c10_configs(name, tier, rng, cls, extras, tf.constant(xs_all[0]))]
+    todo += [("array", real, plain, forms) for real, plain, forms in array_configs(name, tf)]
+    todo += [("listopt", kw, kw, None) for kw in list_configs(name) if legal(cls, kw, tf.constant(xs_all[0]))]
+    todo += [("scalarform", real, plain, forms)
+             for real, plain, forms in scalar_form_configs(name, defaults, names.index(name))
+             if legal(cls, plain, tf.constant(xs_all[0]))]
+    for kind, kw, kw_plain, forms in todo:
       if "post_training_scale" in kw:
         continue
-      rec = {"class": name, "kw": kw, "kind": kind}
+      run.count("lattice_" + kind)
+      rec = {"class": name, "kw": kw_plain, "kind": kind, "forms": forms}
+      # array-valued options are per channel: probes with three channels
+      xs = xs_main if kind != "array" else xs_arr
       try:
         q = cls(**kw)
       except Exception as e:  # pylint: disable=broad-except
         continue
-      slines.append({"op": "str", "cls": name, "kw": L.enc_env(kw)})
+      slines.append({"op": "str", "cls": name, "kw": L.enc_env(kw_plain)})
       srecs.append(rec)
-      run.case(("str", name, repr(L.enc_env(kw))), nontrivial=True)
-      a0 = L.attrs(q, pnames)
+      run.case(("str", name, repr(L.enc_env(kw_plain)), repr(forms)), nontrivial=True)
+      a0 = c10_attrs(q, pnames)
       rec["attrs"] = a0
       try:
         s = str(q)
@@ -383,20 +997,91 @@ def run(run: core.Run, tier: str):
         continue
       try:
         q2 = Q.get_quantizer(s)
-        a2 = L.attrs(q2, pnames)
+        a2 = c10_attrs(q2, pnames)
         rec["reparse"] = {"ok": a2}
       except BaseException as e:  # pylint: disable=broad-except
         rec["reparse"] = {"err": L.err_tag(e)}
         continue
+      # the same text with blanks, and through the layer route QActivation(text)
+      rec["routes"] = []
+      for vname, sv in ws_variants(s):
+        try:
+          av = c10_attrs(Q.get_quantizer(sv), pnames)
+        except BaseException as e:  # pylint: disable=broad-except
+          av = {"err": L.err_tag(e)}
+        if av != a2:
+          rec["routes"].append((vname, sv, av))
+      if kind in ("default", "context", "array", "cross") or len(srecs) % 5 == 0:
+        try:
+          from qkeras import QActivation
+          layer = QActivation(s)
+          av = c10_attrs(layer.quantizer, pnames)
+          cfg = layer.get_quantization_config()
+          if av != a2 or cfg != s:
+            rec["routes"].append(("QActivation", s, {"attrs": av, "get_quantization_config": cfg}))
+          run.count("route_QActivation")
+        except BaseException as e:  # pylint: disable=broad-except
+          rec["routes"].append(("QActivation", s, {"err": L.err_tag(e)}))
+      # history on the real classes: a call with a keyword override, then the same text again
+      try:
+        n_pos = len(real_get_params(s[s.index("("):])[0]) if s.count("(") == 1 else len(pnames)
+      except BaseException:  # pylint: disable=broad-except
+        n_pos = len(pnames)
+      kw_names = [n for n in pnames[n_pos:] if n not in NOT_SWEPT]
+      if len(srecs) % 3 == 0 and kw_names:
+        o_name = kw_names[len(srecs) % len(kw_names)]
+        o_val = L.dec(a0[o_name])
+        try:
+          q3 = real_safe_eval(s, vars(Q), **{o_name: o_val})
+          a3 = c10_attrs(q3, pnames)
+          q4 = Q.get_quantizer(s)
+          a4 = c10_attrs(q4, pnames)
+          run.count("history_real_class")
+          if a4 != a2:
+            rec["routes"].append(("after_override_call:%s" % o_name, s, a4))
+          if not _py(a3[o_name]) == _py(a0[o_name]):
+            rec["routes"].append(("override_not_applied:%s" % o_name, s, a3))
+        except BaseException as e:  # pylint: disable=broad-except
+          rec["routes"].append(("after_override_call:%s" % o_name, s, {"err": L.err_tag(e)}))
       stochastic = name in STOCHASTIC or bool(kw.get("use_stochastic_rounding")) or \
           bool(a2.get("use_stochastic_rounding"))
       phases = (0, 1) if stochastic else (0,)
-      o0 = L.observe(q, xs, phases)
-      rec["call_raises"] = any(isinstance(v, tuple) and v and v[0] == "raises" for v in o0.values())
-      kinds = L.obs_diff(o0, L.observe(q2, xs, phases))
+      # (a) the complete option set, read back from the two objects
+      rec["opt_diff"] = options_diff(q, q2, a0, a2, pnames)
+      rec["options"] = {n: a0[n] for n in pnames}
+      rec["rebuilt_options"] = {n: a2[n] for n in pnames}
+      # (b) behaviour; stochastic classes also in the training phase under fixed draws
+      levels = () if not stochastic else (levels_full if name in STOCHASTIC else levels_full[1::4])
+
+      def watch(qq):
+        o = L.observe(qq, xs, phases)
+        if levels:
+          draws.install(rmods)
+          try:
+            o.update(observe_training(qq, xs, draws, levels))
+          finally:
+            draws.uninstall()
+        return o
+      o0 = watch(q)
+      rec["call_raises"] = any(isinstance(v, tuple) and v and v[0] == "raises" for k, v in o0.items()
+                               if not k.startswith("y1"))
+      o2 = watch(q2)
+      kinds = L.obs_diff(o0, o2)
+      # which observations differ: y/s/g + phase (+ 'f' = fixed draws) + probe index (+ draw level)
+      rec["obs_differing"] = sorted(k for k in o0 if o0[k] != o2.get(k))[:8]
       diff = [n for n in pnames if a0[n] != a2[n]]
       rec["diff_fields"] = diff
       rec["kinds"] = sorted(kinds)
+      # history on one object: the quantizer has now been called on tensors of two ranks, in both
+      # phases, with gradients — its text must still be the text it printed when fresh
+      try:
+        s_after = str(q)
+      except Exception as e:  # pylint: disable=broad-except
+        s_after = "<raises %s>" % L.err_tag(e)
+      if s_after != s:
+        rec["str_after_use"] = s_after
+      if levels:
+        run.count("training_fixed_draws_observed")
       if kinds and len(diff) > 1:
         culprits = []
         for f in diff:
@@ -406,7 +1091,7 @@ def run(run: core.Run, tier: str):
               kw3[g] = L.dec(a0[g])
           try:
             q3 = cls(**kw3)
-            if L.obs_diff(o0, L.observe(q3, xs, phases)):
+            if L.obs_diff(o0, watch(q3)):
               culprits.append(f)
           except Exception:  # pylint: disable=broad-except
             culprits.append(f)
@@ -444,9 +1129,53 @@ def run(run: core.Run, tier: str):
       run.count("reparse_" + r["err"])
       opts = sorted(k for k in rec["kw"])
       run.violate("reparse_raises", {"class": name, "error": r["err"]},
-                  {"kw": line["kw"], "str": rec["str"]["ok"], "options": opts,
+                  {"kw": line["kw"], "forms": rec.get("forms"), "str": rec["str"]["ok"], "options": opts,
                    "replay": "get_quantizer(str(%s(**kw)))" % name}, mirrored=mirrored)
       continue
+    if "str_after_use" in rec:
+      run.count("str_changed_after_use")
+      run.violate("str_stable_after_use", {"class": name},
+                  {"class": name, "kw": line["kw"], "forms": rec.get("forms"), "str_fresh": rec["str"]["ok"],
+                   "str_after_calls": rec["str_after_use"],
+                   "replay": "q=%s(**kw); s=str(q); q(x) in both phases; str(q) != s" % name}, mirrored=False)
+    # a printed text with a second "(" makes safe_eval drop EVERY argument: one violation for
+    # the case instead of one per option that fell back to its default
+    dropped = rec["str"]["ok"].count("(") != 1
+    if dropped:
+      mm = re.search(r"(?:(\w+)=)?(\w+)\(", rec["str"]["ok"][rec["str"]["ok"].index("(") + 1:])
+      run.count("str_all_arguments_dropped")
+      run.violate("str_all_arguments_dropped",
+                  {"class": name, "option": (mm.group(1) or "<positional>") if mm else "?",
+                   "wrapper": mm.group(2) if mm else "?"},
+                  {"class": name, "kw": line["kw"], "options": rec["options"], "str": rec["str"]["ok"],
+                   "rebuilt_options": rec["rebuilt_options"],
+                   "replay": "q=%s(**kw); get_quantizer(str(q)) is the default %s()" % (name, name)},
+                  mirrored=mirrored)
+      continue
+    # the other routes / layouts / histories must rebuild exactly what get_quantizer(str(q)) rebuilt
+    for vname, sv, av in rec.get("routes", []):
+      run.count("route_differs_" + vname.split(":")[0])
+      run.violate("str_route_independent", {"class": name, "route": vname.split(":")[0]},
+                  {"class": name, "kw": line["kw"], "forms": rec.get("forms"), "options": rec["options"],
+                   "str": rec["str"]["ok"], "text": sv, "route": vname, "rebuilt_options": rec["rebuilt_options"],
+                   "rebuilt_through_route": av,
+                   "replay": "get_quantizer(%r) / QActivation(%r).quantizer vs get_quantizer(%r)" % (sv, sv, rec["str"]["ok"])},
+                  mirrored=False)
+    # clause (a): every option of the rebuilt quantizer == the original's (one violation per field)
+    opt_diff = rec.get("opt_diff", {})
+    m_diff = set(o.get("diff_eq") or [])
+    for f, d in sorted(opt_diff.items()):
+      run.count("str_option_differs_%s.%s" % (name, f))
+      run.violate("str_same_options", {"class": name, "field": f, "falsy_original": not _py(d["original"])},
+                  {"class": name, "kw": line["kw"], "options": rec["options"], "str": rec["str"]["ok"],
+                   "rebuilt_options": rec["rebuilt_options"], "field": f, "original": d["original"],
+                   "rebuilt": d["rebuilt"], "read_from": d["read_from"],
+                   "model_expects_difference": f in m_diff,
+                   "unprintable_option": f in unprinted.get(name, []),
+                   "replay": "q=%s(**kw); q2=get_quantizer(str(q)); q2.%s vs q.%s" % (name, f, f)},
+                  mirrored=mirrored and (f in m_diff or d["read_from"] == "get_config"))
+    if not opt_diff:
+      run.count("str_options_all_equal")
     kinds = set(rec.get("kinds", []))
     if rec.get("call_raises"):
       kinds = set()
@@ -454,14 +1183,19 @@ def run(run: core.Run, tier: str):
       clause = "str_same_output" if kinds & {"output", "scale"} else "str_same_gradient"
       for f in rec["culprits"]:
         run.count("str_differs_%s.%s" % (name, f))
-        run.violate(clause, {"class": name, "field": f},
-                    {"kw": line["kw"], "str": rec["str"]["ok"], "differs": sorted(kinds),
+        run.violate(clause, {"class": name, "field": f,
+                             "falsy_original": f in rec["options"] and not _py(rec["options"][f])},
+                    {"class": name, "kw": line["kw"], "options": rec["options"], "str": rec["str"]["ok"],
+                     "rebuilt_options": rec["rebuilt_options"], "differs": sorted(kinds),
+                     "observations_differing": rec.get("obs_differing"),
                      "fields_changed": rec["diff_fields"],
                      "replay": "q=%s(**kw); get_quantizer(str(q))(x) vs q(x)" % name},
                     mirrored=mirrored)
-    elif rec.get("diff_fields"):
+    elif opt_diff:
       n_unobserved += 1
-      run.count("str_field_changed_but_no_observable_difference")
+      run.count("str_option_changed_but_no_observable_difference")
+    elif rec.get("diff_fields"):
+      run.count("str_option_retyped_only")    # True -> 1 and the like: Python-== values
     else:
       run.count("str_roundtrip_exact")
-  run.extra["str_fields_changed_without_observable_difference"] = n_unobserved
+  run.extra["str_options_changed_without_observable_difference"] = n_unobserved
